@@ -63,6 +63,13 @@ CHECKS = {
  'C12': dict(sec='3/C12', tech='TLC enumeration of Transformers.tla (preset-list loop, keep/drop rule on symbol multisets, fw sqrt family with exact integer rounding) + each enumerated case bound to the real FeatureTransformerGeneric; named-formula oracle for the transcendental leaves',
              text='Transformers.tla has three machines: the constructor loop over the preset list (CollectionIsUnion, with the presets extracted from the vault at check time), the keep/drop rule on every multiset of output symbols incl. the exact 80%/75% boundaries, and the fw sqrt family whose rounding is decided exactly in the integers from the resolution and threshold in the NAME; every list, multiset and (resolution, threshold, x) cell is compared with the real code; log-kind and minimal/default formulas use a scalar oracle written from the transformer names.',
              note='log/default formulas are outside TLC (math library); ambiguous NaN-only-plus-one-symbol columns are not judged'),
+
+ 'C17': dict(sec='3/C17', tech='TLC on Ranking3MR.tla (greedy machine with nondeterministic ties, exact integer importances): allowed rankings of every small dictionary must contain the real output; Trace3MR.tla validates the real order pick by pick for seeded dictionaries and for a CLI run',
+             text='Ranking3MR.tla enumerates every dictionary of a bounded space and all greedy-optimal complete rankings; the real rank_features_3MR output must be one of them; for seeded dictionaries of up to 30 features each returned order is validated pick by pick (maximiser among the remaining features, every feature once, ranks 1..n) by Trace3MR.tla; a CLI run with MI-numba-3mr binds 3mr_ranks.tsv to the scores of the same run.',
+             note='3 features exhaustively; seeded calls 60 (quick) / 600 (thorough); integer-valued dictionaries'),
+ 'C18': dict(sec='3/C18', tech='TraceSummary.tla validation of the real task_summary outputs for seeded triplet tables (exact rational comparison of medians and min-max normalisation)',
+             text='Seeded pairwise_ranks tables are summarised by the real outrank_task_result_summary and the two output files are validated by TraceSummary.tla: each feature scored against the label exactly once, score = median (min-max normalised for MI heuristics, best 1 / worst 0), descending order, aggregated table = per-constituent median over the interaction features.',
+             note='trace validation only (no exhaustive model); base names without "-"; 80 (quick) / 1500 (thorough) tables'),
 }
 
 checks = []
